@@ -133,24 +133,34 @@ func ruleChildVisit(p *Prog, r *Result) {
 								}
 								return false
 							}
-							var behind func(x *ssa.BasicBlock, seen map[*ssa.BasicBlock]bool) bool
-							behind = func(x *ssa.BasicBlock, seen map[*ssa.BasicBlock]bool) bool {
-								if seen[x] || len(x.Preds) == 0 {
+							memo := map[*ssa.BasicBlock]int{} // 1 in progress, 2 behind, 3 not behind
+							var behind func(x *ssa.BasicBlock) bool
+							behind = func(x *ssa.BasicBlock) bool {
+								switch memo[x] {
+								case 1, 3:
+									return false
+								case 2:
+									return true
+								}
+								if len(x.Preds) == 0 {
+									memo[x] = 3
 									return false
 								}
-								seen[x] = true
+								memo[x] = 1
 								for _, pr := range x.Preds {
 									viaTrue := false
 									if f := ifOf(pr); f != nil && isTest(f.Cond) && pr.Succs[0] == x && pr.Succs[1] != x {
 										viaTrue = true
 									}
-									if !viaTrue && !behind(pr, seen) {
+									if !viaTrue && !behind(pr) {
+										memo[x] = 3
 										return false
 									}
 								}
+								memo[x] = 2
 								return true
 							}
-							okb := behind(b, map[*ssa.BasicBlock]bool{})
+							okb := behind(b)
 							if !okb {
 								bad = fmt.Sprintf("%s accepts the node at %s without having looked at child %s, which it never checks: anything may stand there", p.FName(fn), p.InstrPos(ret), f)
 							}
